@@ -153,6 +153,8 @@ func (t c13P20) Process() (artifact.Artifact, error) {
 		return c13RowsArt{k: v, n: t.rowsN}, nil
 	case c13ModeBroken:
 		return c13BrokenArt{k: v}, nil
+	case c13ModeImage:
+		return basics.Image{Image: c13Render(v, t.rowsN)}, nil // the repo's REAL image artifact (png)
 	}
 	return c13Art{v: v, gate: t.gate}, nil
 }
@@ -171,8 +173,8 @@ type c13Desc struct {
 	level int
 	// HTTP families only (c13_http.go); the model sees an ordinary S node
 	name  string // producer name ("" = p / p1 / p10 / art<i>.txt)
-	mode  int    // 0 = c13Art; c13ModeRows = many-row artifact; c13ModeBroken = artifact whose Write fails
-	rowsN int
+	mode  int    // 0 = c13Art; c13ModeRows = many-row artifact; c13ModeBroken = artifact whose Write fails; c13ModeImage = basics.Image
+	rowsN int    // rows: number of rows; image: side length in pixels
 }
 
 func (d *c13Desc) deps() []int {
